@@ -278,29 +278,14 @@ theorem termStartChar_cons (c : Char) (r : Str) (h : c ≠ '\\') :
     termStartChar (c :: r) = if invalidStart (c :: r) then none else some ([c], r) := by
   simp [termStartChar, h]
 
-theorem term_eq (s : Str) :
-    term s = if !noKeyword s then none else
-      match termStartChar s with
-      | none => none
-      | some (a, r) => some (a ++ (termChars r).1, (termChars r).2) := by
-  unfold term
-  split
-  · rfl
-  · cases termStartChar s with
-    | none => rfl
-    | some x => rfl
-
-/-- text that is, as it stands, a `TERM` is read as that `TERM` -/
-theorem term_raw (a rest : Str) (h : rawTermOK a = true) (hr : termStop rest = true) :
-    term (a ++ rest) = some (a, rest) := by
-  simp only [rawTermOK, Bool.and_eq_true, Bool.not_eq_true'] at h
-  obtain ⟨⟨⟨hne, hu⟩, hch⟩, hk⟩ := h
+/-- text that is, as it stands, a run of term characters is scanned whole -/
+theorem termScan_raw (a rest : Str) (hne : a ≠ []) (hch : rawTermChars a = true) (hu : hasU3000 a = false)
+    (hr : termStop rest = true) : termScan (a ++ rest) = some (a, rest) := by
   cases a with
-  | nil => simp at hne
+  | nil => exact absurd rfl hne
   | cons c a =>
     simp only [rawTermChars, Bool.and_eq_true, Bool.not_eq_true'] at hch
     have hc : c ≠ '\\' := by intro e; subst e; exact absurd hch.1 (by decide)
-    have hminus : c ≠ '-' := by intro e; subst e; exact absurd hch.1 (by decide)
     rw [hasU3000_cons, Bool.or_eq_false_iff] at hu
     have hsw : startsWith unicode3000 (c :: (a ++ rest)) = false := by
       cases hs : startsWith unicode3000 (c :: (a ++ rest)) with
@@ -308,19 +293,13 @@ theorem term_raw (a rest : Str) (h : rawTermOK a = true) (hr : termStop rest = t
       | true =>
         have := startsWith_append unicode3000 (c :: a) rest unicode3000_plain hr (by simpa using hs)
         rw [hu.1] at this; cases this
-    have hnk : noKeyword (c :: a ++ rest) = true := by
-      rw [noKeyword_eq, kwStart_append _ rest hr hk]
-      simp [startsWith_minus c _ hminus]
-    rw [term_eq, hnk]
-    simp only [Bool.not_true, Bool.false_eq_true, if_false, List.cons_append]
-    rw [termStartChar_cons c _ hc, invalidStart_cons, hch.1, hsw]
-    simp only [Bool.or_self, Bool.false_eq_true, if_false]
-    rw [termChars_raw a rest hch.2 hu.2 hr]
-    simp
+    unfold termScan
+    rw [List.cons_append, termStartChar_cons c _ hc, invalidStart_cons, hch.1, hsw]
+    simp [termChars_raw a rest hch.2 hu.2 hr]
 
-/-- text printed by `lucene_escape` is read as one `TERM` -/
-theorem term_esc (v rest : Str) (h : escTermOK v = true) (hk : kwStart v = false)
-    (hr : termStop rest = true) : term (luceneEscape v ++ rest) = some (luceneEscape v, rest) := by
+/-- text printed by `lucene_escape` is scanned whole -/
+theorem termScan_esc (v rest : Str) (h : escTermOK v = true) (hr : termStop rest = true) :
+    termScan (luceneEscape v ++ rest) = some (luceneEscape v, rest) := by
   simp only [escTermOK, Bool.and_eq_true, Bool.not_eq_true'] at h
   obtain ⟨⟨hne, hw⟩, hu⟩ := h
   cases v with
@@ -330,16 +309,13 @@ theorem term_esc (v rest : Str) (h : escTermOK v = true) (hk : kwStart v = false
     simp only [hasWs, List.any_cons, Bool.or_eq_false_iff] at hw'
     rw [hasU3000_cons, Bool.or_eq_false_iff] at hu
     have htail := termChars_esc v rest (by simpa [hasWs] using hw'.2) hu.2 hr
+    unfold termScan
     by_cases hs : isLuceneSpecial c = true
-    · have hnk : noKeyword (luceneEscape (c :: v) ++ rest) = true := by
-        simp only [luceneEscape, hs, if_true, List.cons_append]; rfl
-      rw [term_eq, hnk]
-      simp only [luceneEscape, hs, if_true, List.cons_append, Bool.not_true, Bool.false_eq_true, if_false]
+    · simp only [luceneEscape, hs, if_true, List.cons_append]
       rw [termStartChar_bs]
       simp [htail]
     · have hs' : isLuceneSpecial c = false := by simpa using hs
       have hc : c ≠ '\\' := by intro e; subst e; exact hs (by decide)
-      have hminus : c ≠ '-' := by intro e; subst e; exact hs (by decide)
       have hinv := not_invalid_of_plain c hw'.1 hs'
       have hsw : startsWith unicode3000 (c :: (luceneEscape v ++ rest)) = false := by
         cases hsq : startsWith unicode3000 (c :: (luceneEscape v ++ rest)) with
@@ -349,12 +325,48 @@ theorem term_esc (v rest : Str) (h : escTermOK v = true) (hk : kwStart v = false
             simpa [luceneEscape, hs] using hsq
           have := startsWith_escape unicode3000 (c :: v) rest unicode3000_plain hr h'
           rw [hu.1] at this; cases this
-      have hnk : noKeyword (luceneEscape (c :: v) ++ rest) = true := by
-        rw [noKeyword_eq, kwStart_escape _ rest hr hk]
-        simp [luceneEscape, hs, startsWith_minus c _ hminus]
-      rw [term_eq, hnk]
-      simp only [luceneEscape, hs, Bool.false_eq_true, if_false, List.cons_append, Bool.not_true]
+      simp only [luceneEscape, hs, Bool.false_eq_true, if_false, List.cons_append]
       rw [termStartChar_cons c _ hc, invalidStart_cons, hinv, hsw]
       simp [htail]
+
+theorem noKeyword_raw (a rest : Str) (hne : a ≠ []) (hch : rawTermChars a = true) (hk : kwStart a = false)
+    (hr : termStop rest = true) : noKeyword (a ++ rest) = true := by
+  cases a with
+  | nil => exact absurd rfl hne
+  | cons c a =>
+    simp only [rawTermChars, Bool.and_eq_true, Bool.not_eq_true'] at hch
+    have hminus : c ≠ '-' := by intro e; subst e; exact absurd hch.1 (by decide)
+    rw [noKeyword_eq, kwStart_append _ rest hr hk]
+    simp [startsWith_minus c _ hminus]
+
+theorem noKeyword_esc (v rest : Str) (hne : v ≠ []) (hk : kwStart v = false) (hr : termStop rest = true) :
+    noKeyword (luceneEscape v ++ rest) = true := by
+  cases v with
+  | nil => exact absurd rfl hne
+  | cons c v =>
+    by_cases hs : isLuceneSpecial c = true
+    · simp only [luceneEscape, hs, if_true, List.cons_append]; rfl
+    · have hminus : c ≠ '-' := by intro e; subst e; exact hs (by decide)
+      rw [noKeyword_eq, kwStart_escape _ rest hr hk]
+      simp [luceneEscape, hs, startsWith_minus c _ hminus]
+
+/-- text that is, as it stands, a `TERM` is read as that `TERM` -/
+theorem term_raw (a rest : Str) (h : rawTermOK a = true) (hr : termStop rest = true) :
+    term (a ++ rest) = some (a, rest) := by
+  simp only [rawTermOK, Bool.and_eq_true, Bool.not_eq_true'] at h
+  obtain ⟨⟨⟨hne, hu⟩, hch⟩, hk⟩ := h
+  have hne' : a ≠ [] := by intro e; subst e; simp at hne
+  unfold term
+  rw [noKeyword_raw a rest hne' hch hk hr, termScan_raw a rest hne' hch hu hr]
+  simp
+
+/-- text printed by `lucene_escape` is read as one `TERM` -/
+theorem term_esc (v rest : Str) (h : escTermOK v = true) (hk : kwStart v = false)
+    (hr : termStop rest = true) : term (luceneEscape v ++ rest) = some (luceneEscape v, rest) := by
+  have hne' : v ≠ [] := by
+    intro e; subst e; simp [escTermOK] at h
+  unfold term
+  rw [noKeyword_esc v rest hne' hk hr, termScan_esc v rest h hr]
+  simp
 
 end Search
